@@ -10,7 +10,7 @@ import itertools
 import math
 from pe_util import np, pe, close
 
-RULE = ('exhaustive: 16 Grid tags + about 270 unknown tags (all concatenations of two valid names, case / padding variants); 125 + 625 index tuples; K_n for n=0..6 on 9 arguments in (0.05,20) in four '
+RULE = ('exhaustive: 16 Grid tags + about 270 unknown tags (all concatenations of two valid names, case / padding variants); 512 + 4096 index tuples (indices -2..5); K_n for n=0..6 on 9 arguments in (0.05,20) in four '
         'usage forms (direct, scaled, inside log, array); each re-exported special function on a grid with central-difference oracle')
 TRUSTED = ['scipy.special values of K_n and of the re-exported functions (the derivative oracle is built from them)',
            'autograd vjps of the re-exported special functions (contract, measured)']
@@ -193,8 +193,9 @@ def all_cases():
     cases = [{'kind': 'basic'}]
     cases += [{'kind': 'tag', 'tag': t} for t in TAGS + UNKNOWN]
     cases += [{'kind': 'tag', 'tag': t} for t in TAGS]
-    cases += [{'kind': 'eps3', 't': list(t)} for t in itertools.product(range(5), repeat=3)]
-    cases += [{'kind': 'eps4', 't': list(t)} for t in itertools.product(range(5), repeat=4)]
+    # the domain is {0,1,2}^3 u {1,2,3}^3 (resp. rank 4); everything around it, negative indices included, is outside
+    cases += [{'kind': 'eps3', 't': list(t)} for t in itertools.product(range(-2, 6), repeat=3)]
+    cases += [{'kind': 'eps4', 't': list(t)} for t in itertools.product(range(-2, 6), repeat=4)]
     for n in range(7):
         for x in [0.06, 0.2, 0.7, 1.0, 2.5, 5.0, 9.0, 14.0, 19.5]:
             cases.append({'kind': 'kn', 'n': n, 'x': x})
